@@ -31,6 +31,7 @@ type CaseC17 struct {
 	Procs      int                    `json:"procs"`
 	Yield      int                    `json:"yield"`                  // Gosched every Yield-th operation
 	SeqViaJSON bool                   `json:"seq_via_json,omitempty"` // the shared MapSeq went through Copy (JSON): float64 sequence numbers
+	Reapply    bool                   `json:"reapply_opts,omitempty"` // every option setter is called (with the value in force) right before the goroutines start: whatever the library derives from the options is derived concurrently
 	Alias      *AliasSpec             `json:"alias,omitempty"`        // one container object gets a second parent in the shared Map
 	DeepChain  int                    `json:"deep_chain,omitempty"`   // the shared Map is a chain of this many nested single-entry maps (built in the check, not stored)
 }
@@ -118,6 +119,7 @@ func genC17(t *rapid.T) CaseC17 {
 	c.Procs = rapid.SampledFrom([]int{2, 4, 16}).Draw(t, "procs")
 	c.Yield = rapid.IntRange(1, 4).Draw(t, "yield")
 	c.SeqViaJSON = rapid.Bool().Draw(t, "seqviajson")
+	c.Reapply = rapid.Bool().Draw(t, "reapply")
 	if c.Value != nil && rapid.IntRange(0, 4).Draw(t, "alias") == 0 {
 		c.Alias = &AliasSpec{Src: rapid.IntRange(0, 30).Draw(t, "asrc"), Dst: rapid.IntRange(0, 30).Draw(t, "adst"), Key: rapid.SampledFrom(shapeKeys).Draw(t, "akey")}
 	}
@@ -422,6 +424,11 @@ func checkC17(c CaseC17, info *Info) *Failure {
 				}
 			}
 		}(g)
+	}
+	if c.Reapply {
+		// the options are not changed while the goroutines run - they were (re)set, sequentially, just before
+		defaultOpts().apply()
+		info.Class("option setters called right before the goroutines start")
 	}
 	close(start)
 	wg.Wait()
